@@ -9,6 +9,8 @@ structure Out where
   /-- `some msg`: the property's executable specification is violated by the implementation's
       observation on this case (independently of the model). -/
   spec : Option String := none
+  /-- further verdicts (one per property clause); the driver keeps those of the property being checked -/
+  specs : List String := []
 
 abbrev Handler := List String → String → Out
 
